@@ -1,5 +1,7 @@
 import NjectProofs.ReorderDeps
 import NjectProofs.ReorderGraph
+import NjectProofs.ReorderLive
+import Nject.ReorderCond
 import NjectProps.C17b
 /-
   C17, about the algorithm (reorder.go as transcribed in `Nject/ReorderAlg.lean`): a provider that
@@ -217,5 +219,233 @@ theorem C17_only_reorder_providers_are_given_up (ti : TyInfo) (funcs : List CP) 
         · exact hl
         · rw [List.getElem?_eq_none hg] at hj; cases hj
       exact (hi.2 (f.crDone j i (by omega) hj)).elim
+
+end Nject
+
+namespace Nject
+
+/-- the state `topo.run` starts from satisfies the liveness invariant -/
+theorem topoInit_live (ti : TyInfo) (funcs : List CP) (hasInit : Bool) :
+    Live (topoStatic funcs (buildGraph ti funcs hasInit)) (buildNodes (buildGraph ti funcs hasInit)).after
+      (InitReleases funcs (buildGraph ti funcs hasInit) hasInit) (fun _ => False) (topoInit funcs (buildGraph ti funcs hasInit) hasInit) := by
+  generalize hg : buildGraph ti funcs hasInit = g
+  let x0 : Topo := { after := (buildNodes g).after, weakAfter := (buildNodes g).weakAfter, cannotReorder := g.cannotReorder }
+  have base : ∀ (P : Nat → Prop), (∀ num, P num → False) → Live (topoStatic funcs g) (buildNodes g).after P (fun _ => False) x0 := by
+    intro P hP
+    exact
+      { sub := fun _ _ hj => hj
+        gone := fun m hm => by cases hm
+        relTy := fun q hq => by cases hq
+        initTy := fun num hi => (hP num hi).elim
+        ready := fun i _ h0 he => (h0 he).elim }
+  unfold topoInit
+  cases hasInit with
+  | false => exact base _ (fun num hi => by cases hi.1)
+  | true =>
+    simp only [if_true]
+    cases hf : funcs.find? (·.cls == .initFunc) with
+    | none =>
+      exact base _ (fun num hi => by
+        obtain ⟨_, f, hf', _⟩ := hi
+        rw [hf] at hf'; cases hf')
+    | some f =>
+      simp only []
+      -- pushes keep everything; each pushed node is queued
+      let Q : List Ty → Nat → Prop := fun l num => ∃ t ∈ l, g.downTypes.lookup t = some num
+      have hpush : ∀ (l : List Ty) (x : Topo) (seen : List Ty),
+          Live (topoStatic funcs g) (buildNodes g).after (Q seen) (fun _ => False) x →
+          Live (topoStatic funcs g) (buildNodes g).after (Q (seen ++ l)) (fun _ => False)
+            (l.foldl (fun (x : Topo) t => match g.downTypes.lookup t with | some num => x.pushU (topoStatic funcs g) num | none => x) x) := by
+        intro l
+        induction l with
+        | nil => intro x seen hx; simpa using hx
+        | cons t l ih =>
+          intro x seen hx
+          simp only [List.foldl_cons]
+          have hstep : Live (topoStatic funcs g) (buildNodes g).after (Q (seen ++ [t])) (fun _ => False)
+              (match g.downTypes.lookup t with | some num => x.pushU (topoStatic funcs g) num | none => x) := by
+            cases hlk : g.downTypes.lookup t with
+            | none =>
+              simp only []
+              refine hx.changeInit _ (fun num hq => ?_)
+              obtain ⟨t', ht', hl'⟩ := hq
+              rcases List.mem_append.mp ht' with ht' | ht'
+              · exact hx.initTy num ⟨t', ht', hl'⟩
+              · simp at ht'; subst ht'; rw [hlk] at hl'; cases hl'
+            | some num0 =>
+              simp only []
+              have hp := hx.push num0 false
+              simp only [Bool.false_eq_true, if_false] at hp
+              refine hp.changeInit _ (fun num hq => ?_)
+              obtain ⟨t', ht', hl'⟩ := hq
+              rcases List.mem_append.mp ht' with ht' | ht'
+              · exact hp.initTy num ⟨t', ht', hl'⟩
+              · simp at ht'; subst ht'; rw [hlk] at hl'; cases hl'
+                exact Or.inl ((inHeap_pushU _ x num0 num0).mpr (Or.inr rfl))
+          have := ih _ (seen ++ [t]) hstep
+          simpa [List.append_assoc] using this
+      have h0 : Live (topoStatic funcs g) (buildNodes g).after (Q []) (fun _ => False) x0 :=
+        base _ (fun num ⟨t, ht, _⟩ => by cases ht)
+      have h1 := hpush (noNoType f.out) x0 [] h0
+      simp only [List.nil_append] at h1
+      refine h1.changeInit _ (fun num hi => ?_)
+      obtain ⟨_, f', hf', t, ht, hl⟩ := hi
+      rw [hf] at hf'; cases hf'
+      exact h1.initTy num ⟨t, ht, hl⟩
+
+/-- **C17 (algorithm), placement**: under the order condition `LiveHyp` on the constraint graph -- the
+    constraints of every fixed provider are met by the fixed providers before it (from position `kx` on possibly by
+    `xr`), the constraints of `xr` by the fixed providers before `kx` -- `reorder` does not give up on `xr` and lists
+    it before every provider that waits for a type only `xr` supplies. -/
+theorem C17_displaced_provider_is_placed_before_its_consumers (ti : TyInfo) (funcs : List CP) (hasInit : Bool) (r : ReorderOut)
+    (h : reorderIdx ti funcs hasInit = some r) (xr kx : Nat)
+    (H : LiveHyp (topoStatic (clearReorder funcs) (buildGraph ti (clearReorder funcs) hasInit))
+          (buildGraph ti (clearReorder funcs) hasInit).cannotReorder
+          (buildNodes (buildGraph ti (clearReorder funcs) hasInit)).after
+          (InitReleases (clearReorder funcs) (buildGraph ti (clearReorder funcs) hasInit) hasInit) xr kx) :
+    xr ∉ r.gaveUp ∧ xr ∈ r.order ∧
+    ∀ (b p : Nat), r.order[b]? = some p →
+      Consumer (topoStatic (clearReorder funcs) (buildGraph ti (clearReorder funcs) hasInit))
+        (buildNodes (buildGraph ti (clearReorder funcs) hasInit)).after
+        (InitReleases (clearReorder funcs) (buildGraph ti (clearReorder funcs) hasInit) hasInit) xr p →
+      ∃ a : Nat, a < b ∧ r.order[a]? = some xr := by
+  have hterm := reorderIdx_terminates h
+  unfold reorderIdx at h
+  simp only [] at h
+  split at h
+  · cases h
+  · cases h
+    generalize hfs : clearReorder funcs = fs at *
+    have hs := reorderStatic_ok ti fs hasInit
+    have ⟨f0⟩ := topoInit_full ti fs hasInit
+    have d0 := topoInit_dep ti fs hasInit
+    have l0 := topoInit_live ti fs hasInit
+    have o0 : Ord (topoStatic fs (buildGraph ti fs hasInit)) (buildNodes (buildGraph ti fs hasInit)).after
+        (InitReleases fs (buildGraph ti fs hasInit) hasInit) xr (topoInit fs (buildGraph ti fs hasInit) hasInit) := by
+      have hout : (topoInit fs (buildGraph ti fs hasInit) hasInit).out = [] := by
+        have := (topoInit_full ti fs hasInit)
+        obtain ⟨ff⟩ := this
+        -- nothing is emitted before the loop starts: out's fixed part is the empty prefix and every emitted node is done
+        have hk := ff.core.outLt
+        apply List.eq_nil_iff_forall_not_mem.mpr
+        intro a ha
+        have hd := (hk a ha).2
+        -- done is empty initially
+        have : (topoInit fs (buildGraph ti fs hasInit) hasInit).done = [] := by
+          unfold topoInit
+          cases hasInit with
+          | false => rfl
+          | true =>
+            simp only [if_true]
+            cases fs.find? (·.cls == .initFunc) with
+            | none => rfl
+            | some f =>
+              simp only []
+              have : ∀ (l : List Ty) (x : Topo), x.done = [] →
+                  (l.foldl (fun (x : Topo) t => match (buildGraph ti fs true).downTypes.lookup t with
+                    | some num => x.pushU (topoStatic fs (buildGraph ti fs true)) num | none => x) x).done = [] := by
+                intro l
+                induction l with
+                | nil => intro x hx; exact hx
+                | cons t l ih =>
+                  intro x hx
+                  simp only [List.foldl_cons]
+                  apply ih
+                  cases (buildGraph ti fs true).downTypes.lookup t with
+                  | none => exact hx
+                  | some num => exact hx
+              exact this _ _ rfl
+        rw [this] at hd; cases hd
+      intro b p hb
+      rw [hout] at hb; simp at hb
+    have ⟨hx, ho, ⟨ff⟩⟩ := loop_live hs H (reorderFuel (buildGraph ti fs hasInit) fs) _ ⟨f0⟩ d0 l0 o0 hterm
+    generalize hxx : Topo.loop (topoStatic fs (buildGraph ti fs hasInit)) (reorderFuel (buildGraph ti fs hasInit) fs)
+      (topoInit fs (buildGraph ti fs hasInit) hasInit) = x at *
+    have hxo : xr ∈ x.out := ff.core.doneOut xr hx H.xlt
+    refine ⟨?_, ?_, ?_⟩
+    · simp only [Topo.leftOver, List.mem_filter, List.mem_range, Bool.not_eq_true', List.contains_eq_mem, decide_eq_false_iff_not, not_and]
+      intro _ hn; exact hn hx
+    · simp only [Topo.order]; exact List.mem_append_left _ hxo
+    · intro b p hb hc
+      simp only [Topo.order] at hb ⊢
+      obtain ⟨a0, ha0⟩ := List.mem_iff_getElem?.mp hxo
+      have ha0l : a0 < x.out.length := by
+        rcases Nat.lt_or_ge a0 x.out.length with hl | hg
+        · exact hl
+        · rw [List.getElem?_eq_none hg] at ha0; cases ha0
+      rcases Nat.lt_or_ge b x.out.length with hbl | hbg
+      · rw [List.getElem?_append_left hbl] at hb
+        obtain ⟨a, ha, hz⟩ := ho b p hb hc
+        exact ⟨a, ha, by rw [List.getElem?_append_left (by omega)]; exact hz⟩
+      · exact ⟨a0, by omega, by rw [List.getElem?_append_left ha0l]; exact ha0⟩
+
+end Nject
+
+namespace Nject
+
+/-! ### the order condition as a decidable check (evaluated by the driver for every displacement pair) -/
+
+theorem releasesB_iff (s : TopoS) (q j : Nat) : releasesB s q j = true ↔ Releases s q j := by
+  unfold releasesB Releases
+  simp only [Bool.or_eq_true, List.any_eq_true, beq_iff_eq]
+
+theorem initReleasesB_iff (fs : List CP) (g : RGraph) (hasInit : Bool) (j : Nat) :
+    initReleasesB fs g hasInit j = true ↔ InitReleases fs g hasInit j := by
+  unfold initReleasesB InitReleases
+  cases hf : fs.find? (·.cls == .initFunc) with
+  | none => simp
+  | some f => simp [List.any_eq_true]
+
+theorem mem_take_iff {NR : List Nat} {m j : Nat} : j ∈ NR.take m ↔ ∃ k', k' < m ∧ NR[k']? = some j := by
+  constructor
+  · intro h
+    obtain ⟨k', hk⟩ := List.mem_iff_getElem?.mp h
+    have hkl : k' < (NR.take m).length := by
+      rcases Nat.lt_or_ge k' (NR.take m).length with hl | hg
+      · exact hl
+      · rw [List.getElem?_eq_none hg] at hk; cases hk
+    have hkm : k' < m := by
+      have := List.length_take_le m NR
+      omega
+    rw [List.getElem?_take_of_lt hkm] at hk
+    exact ⟨k', hkm, hk⟩
+  · rintro ⟨k', hkm, hk⟩
+    apply List.mem_iff_getElem?.mpr
+    exact ⟨k', by rw [List.getElem?_take_of_lt hkm]; exact hk⟩
+
+theorem okSetB_sound {s NR fs g hasInit m j} (h : okSetB s NR fs g hasInit m j = true) :
+    OKset s NR (InitReleases fs g hasInit) m j := by
+  unfold okSetB at h
+  simp only [Bool.or_eq_true, Bool.and_eq_true, List.contains_iff_mem, decide_eq_true_eq, List.any_eq_true] at h
+  rcases h with h | ⟨hj, h | ⟨q, hq, hr⟩⟩
+  · exact Or.inl (mem_take_iff.mp h)
+  · exact Or.inr ⟨hj, Or.inl ((initReleasesB_iff fs g hasInit j).mp h)⟩
+  · obtain ⟨k', hk, hn⟩ := mem_take_iff.mp hq
+    exact Or.inr ⟨hj, Or.inr ⟨k', q, hk, hn, (releasesB_iff s q j).mp hr⟩⟩
+
+theorem liveHypB_sound (ti : TyInfo) (fs : List CP) (hasInit : Bool) (xr kx : Nat) (h : liveHypB ti fs hasInit xr kx = true) :
+    LiveHyp (topoStatic fs (buildGraph ti fs hasInit)) (buildGraph ti fs hasInit).cannotReorder
+      (buildNodes (buildGraph ti fs hasInit)).after (InitReleases fs (buildGraph ti fs hasInit) hasInit) xr kx := by
+  unfold liveHypB at h
+  simp only [Bool.and_eq_true, decide_eq_true_eq, Bool.not_eq_true', List.all_eq_true, List.mem_range, Bool.or_eq_true] at h
+  obtain ⟨⟨⟨⟨h1, h2⟩, h3⟩, h4⟩, h5⟩ := h
+  have dual := buildNodes_dual (buildGraph ti fs hasInit)
+  refine ⟨h1, ?_, h3, fun i j hj => (dual.2 i j).mpr ((dual.1 i j).mp hj), ?_, fun j hj => okSetB_sound (h5 j hj)⟩
+  · intro he; rw [he] at h2; simp at h2
+  · intro k p hp j hj
+    have hk : k < (buildGraph ti fs hasInit).cannotReorder.length := by
+      rcases Nat.lt_or_ge k (buildGraph ti fs hasInit).cannotReorder.length with hl | hg
+      · exact hl
+      · rw [List.getElem?_eq_none hg] at hp; cases hp
+    have := h4 k hk
+    rw [hp] at this
+    simp only [List.all_eq_true, Bool.or_eq_true, Bool.and_eq_true, decide_eq_true_eq] at this
+    rcases this j hj with a | ⟨⟨a, b⟩, c⟩
+    · exact Or.inl (okSetB_sound a)
+    · exact Or.inr ⟨a, b, (releasesB_iff _ xr j).mp c⟩
+
+/-- the condition holds on the example: the Reorder'd injector (position 1) is served by the fixed providers
+    before position 2 of the fixed list `[0, 2, 3]`, and the final function waits for it -/
+example : liveHypB stdTyInfo (clearReorder c17cExample) false 1 2 = true := by decide
 
 end Nject
